@@ -128,3 +128,219 @@ Proof.
   destruct (Z.eqb (idx + 1) (ig s)); [|reflexivity].
   destruct (rev (gaps s)) as [|[a b] r]; reflexivity.
 Qed.
+
+(* ------------------------------------------------------------------------------------------------------- *)
+(* The not-at-top path: unregister_gradient_not_top(idx) and the else branch of unregister_gradients(idx,n). *)
+Record ntf := {
+  cb_c : Z -> Z -> Z -> bool; cb_u : Z -> Z -> Z; ct_c : Z -> Z -> Z -> bool; ct_u : Z -> Z -> Z;
+  s_le : Z -> Z -> Z -> bool; sb_c : Z -> Z -> Z -> bool; sb_u : Z -> Z -> Z; st_c : Z -> Z -> Z -> bool; st_u : Z -> Z -> Z;
+  ng_a : Z -> Z; ng_b : Z -> Z; pg_a : Z -> Z; pg_b : Z -> Z;
+  mb_c : Z -> Z -> Z -> Z -> bool; mb_u : Z -> Z -> Z -> Z -> Z; mt_c : Z -> Z -> Z -> Z -> bool; mt_u : Z -> Z -> Z -> Z -> Z }.
+
+Definition F1 : ntf := {|
+  cb_c := x1_cb_c; cb_u := x1_cb_u; ct_c := x1_ct_c; ct_u := x1_ct_u; s_le := x1_s_le; sb_c := x1_sb_c; sb_u := x1_sb_u;
+  st_c := x1_st_c; st_u := x1_st_u; ng_a := x1_ng_a; ng_b := x1_ng_b; pg_a := x1_pg_a; pg_b := x1_pg_b;
+  mb_c := x1_mb_c; mb_u := x1_mb_u; mt_c := x1_mt_c; mt_u := x1_mt_u |}.
+Definition FN (n : Z) : ntf := {|
+  cb_c := fun i a b => xn_cb_c i a b n; cb_u := fun a b => xn_cb_u a b n; ct_c := fun i a b => xn_ct_c i a b n;
+  ct_u := fun a b => xn_ct_u a b n; s_le := fun i a b => xn_s_le i a b n; sb_c := fun i a b => xn_sb_c i a b n;
+  sb_u := fun a b => xn_sb_u a b n; st_c := fun i a b => xn_st_c i a b n; st_u := fun a b => xn_st_u a b n;
+  ng_a := fun i => xn_ng_a i n; ng_b := fun i => xn_ng_b i n; pg_a := fun i => xn_pg_a i n; pg_b := fun i => xn_pg_b i n;
+  mb_c := xn_mb_c; mb_u := xn_mb_u; mt_c := xn_mt_c; mt_u := xn_mt_u |}.
+
+Section NotTop.
+Variable F : ntf.
+
+Fixpoint gen_search (idx : Z) (k : nat) (l : list gap) : option (nat * status) :=
+  match l with
+  | [] => None
+  | (a,b) :: t =>
+      if s_le F idx a b
+      then Some (k, if sb_c F idx a b then AtBase else if st_c F idx a b then AtTop else NewGap)
+      else gen_search idx (S k) t
+  end.
+
+Definition gen_place (s : st) (idx : Z) : nat * status * list gap :=
+  let try_cur :=
+    match cur s with
+    | Some k => match nth_error (gaps s) k with
+                | Some (a,b) =>
+                    if cb_c F idx a b then Some (k, AtBase, set_nth k (cb_u F a b, b) (gaps s))
+                    else if ct_c F idx a b then Some (k, AtTop, set_nth k (a, ct_u F a b) (gaps s))
+                    else None
+                | None => None end
+    | None => None end in
+  match try_cur with
+  | Some r => r
+  | None =>
+      match gen_search idx 0%nat (gaps s) with
+      | Some (k, AtBase) => match nth_error (gaps s) k with
+                            | Some (a,b) => (k, AtBase, set_nth k (sb_u F a b, b) (gaps s))
+                            | None => (k, NotFound, gaps s) end
+      | Some (k, AtTop) => match nth_error (gaps s) k with
+                           | Some (a,b) => (k, AtTop, set_nth k (a, st_u F a b) (gaps s))
+                           | None => (k, NotFound, gaps s) end
+      | Some (k, _) => (k, NewGap, insert_nth k (ng_a F idx, ng_b F idx) (gaps s))
+      | None => (length (gaps s), NewGap, gaps s ++ [(pg_a F idx, pg_b F idx)])
+      end
+  end.
+
+Definition gen_merge (k : nat) (stt : status) (g : list gap) : list gap * nat :=
+  match stt with
+  | AtBase =>
+      match k with O => (g,k)
+      | S k' => match nth_error g k', nth_error g k with
+                | Some (pa,pb), Some (a,b) =>
+                    if mb_c F pa pb a b then (remove_nth k' (set_nth k (mb_u F pa pb a b, b) g), k') else (g,k)
+                | _,_ => (g,k) end
+      end
+  | AtTop =>
+      match nth_error g k, nth_error g (S k) with
+      | Some (a,b), Some (na,nb) =>
+          if mt_c F na nb a b then (remove_nth (S k) (set_nth k (a, mt_u F na nb a b) g), k) else (g,k)
+      | _,_ => (g,k) end
+  | _ => (g,k)
+  end.
+
+Definition gen_unregister_rest (s : st) (idx cnt : Z) : st :=
+  let '(k, stt, g) := gen_place s idx in
+  let '(g', k') := gen_merge k stt g in
+  mk (ig s) (mg s) cnt g' (Some k').
+
+(* what the model does in those places *)
+Variable n : Z.
+Definition agrees : Prop :=
+  (forall i a b, cb_c F i a b = (i =? a - n)) /\ (forall a b, cb_u F a b = a - n) /\
+  (forall i a b, ct_c F i a b = (i =? b + 1)) /\ (forall a b, ct_u F a b = b + n) /\
+  (forall i a b, s_le F i a b = (i <=? b + 1)) /\
+  (forall i a b, sb_c F i a b = (i =? a - n)) /\ (forall a b, sb_u F a b = a - n) /\
+  (forall i a b, st_c F i a b = (i =? b + 1)) /\ (forall a b, st_u F a b = b + n) /\
+  (forall i, ng_a F i = i) /\ (forall i, ng_b F i = i + n - 1) /\ (forall i, pg_a F i = i) /\ (forall i, pg_b F i = i + n - 1) /\
+  (forall pa pb a b, mb_c F pa pb a b = (pb =? a - 1)) /\ (forall pa pb a b, mb_u F pa pb a b = pa) /\
+  (forall na nb a b, mt_c F na nb a b = (na =? b + 1)) /\ (forall na nb a b, mt_u F na nb a b = nb).
+
+Hypothesis Hag : agrees.
+
+Lemma gen_search_eq : forall idx l k, gen_search idx k l = search idx n k l.
+Proof.
+  destruct Hag as (_ & _ & _ & _ & Hle & Hb & _ & Ht & _).
+  intros idx l. induction l as [|[a b] t IH]; intros k; cbn [gen_search search]; [reflexivity|].
+  rewrite Hle, Hb, Ht, IH. reflexivity.
+Qed.
+
+Lemma gen_place_eq : forall s idx, gen_place s idx = place s idx n.
+Proof.
+  destruct Hag as (H1 & H2 & H3 & H4 & _ & _ & H7 & _ & H9 & H10 & H11 & H12 & H13 & _).
+  intros s idx. unfold gen_place, place. rewrite gen_search_eq.
+  assert (E : match cur s with
+    | Some k => match nth_error (gaps s) k with
+                | Some (a,b) =>
+                    if cb_c F idx a b then Some (k, AtBase, set_nth k (cb_u F a b, b) (gaps s))
+                    else if ct_c F idx a b then Some (k, AtTop, set_nth k (a, ct_u F a b) (gaps s))
+                    else None
+                | None => None end
+    | None => None end =
+    match cur s with
+    | Some k => match nth_error (gaps s) k with
+                | Some (a,b) =>
+                    if Z.eqb idx (a - n) then Some (k, AtBase, set_nth k (a-n,b) (gaps s))
+                    else if Z.eqb idx (b+1) then Some (k, AtTop, set_nth k (a,b+n) (gaps s))
+                    else None
+                | None => None end
+    | None => None end).
+  { destruct (cur s) as [k|]; [|reflexivity]. destruct (nth_error (gaps s) k) as [[a b]|]; [|reflexivity].
+    rewrite H1, H2, H3, H4. reflexivity. }
+  rewrite E. clear E.
+  match goal with |- match ?x with _ => _ end = _ => destruct x as [r|] end; [reflexivity|].
+  destruct (search idx n 0%nat (gaps s)) as [[k stt]|].
+  - destruct stt.
+    + destruct (nth_error (gaps s) k) as [[a b]|]; [rewrite H7|]; reflexivity.
+    + destruct (nth_error (gaps s) k) as [[a b]|]; [rewrite H9|]; reflexivity.
+    + rewrite H10, H11. reflexivity.
+    + rewrite H10, H11. reflexivity.
+  - rewrite H12, H13. reflexivity.
+Qed.
+
+Lemma gen_merge_eq : forall k stt g, gen_merge k stt g = merge k stt g.
+Proof.
+  destruct Hag as (_ & _ & _ & _ & _ & _ & _ & _ & _ & _ & _ & _ & _ & H14 & H15 & H16 & H17).
+  intros k stt g. unfold gen_merge, merge. destruct stt; try reflexivity.
+  - destruct k as [|k']; [reflexivity|].
+    destruct (nth_error g k') as [[pa pb]|]; [|reflexivity].
+    destruct (nth_error g (S k')) as [[a b]|]; [|reflexivity].
+    rewrite H14, H15. reflexivity.
+  - destruct (nth_error g k) as [[a b]|]; [|reflexivity].
+    destruct (nth_error g (S k)) as [[na nb]|]; [|reflexivity].
+    rewrite H16, H17. reflexivity.
+Qed.
+
+Lemma gen_unregister_rest_eq : forall s idx,
+  Z.eqb (idx + n) (ig s) = false -> gen_unregister_rest s idx (nreg s - n) = unregisterN s idx n.
+Proof.
+  intros s idx Hne. unfold gen_unregister_rest, unregisterN. rewrite Hne, gen_place_eq.
+  destruct (place s idx n) as [[k stt] g]. rewrite gen_merge_eq. reflexivity.
+Qed.
+End NotTop.
+
+Lemma FN_agrees : forall n, agrees (FN n) n.
+Proof. intros n. unfold agrees. repeat split; intros; reflexivity. Qed.
+Lemma F1_agrees : agrees F1 1.
+Proof.
+  unfold agrees. repeat split; intros; cbn [F1 cb_c cb_u ct_c ct_u s_le sb_c sb_u st_c st_u ng_a ng_b pg_a pg_b mb_c mb_u mt_c mt_u];
+    unfold x1_cb_c, x1_cb_u, x1_ct_c, x1_ct_u, x1_s_le, x1_sb_c, x1_sb_u, x1_st_c, x1_st_u, x1_ng_a, x1_ng_b, x1_pg_a, x1_pg_b,
+      x1_mb_c, x1_mb_u, x1_mt_c, x1_mt_u; try reflexivity; lia.
+Qed.
+
+(* the two whole functions as the source has them *)
+Definition gen_unregister1 (s : st) (idx : Z) : st :=
+  match gen_unregister1_top s idx with
+  | Some r => r
+  | None => gen_unregister_rest F1 s idx (u1_count (nreg s))
+  end.
+Definition gen_unregisterN (s : st) (idx n : Z) : st :=
+  match gen_unregisterN_top n s idx with
+  | Some r => r
+  | None => gen_unregister_rest (FN n) s idx (un_count (nreg s) n)
+  end.
+
+Lemma gen_unregisterN_eq : forall s idx n, gen_unregisterN s idx n = unregisterN s idx n.
+Proof.
+  intros s idx n. unfold gen_unregisterN. rewrite gen_unregisterN_top_eq. unfold model_unregister_top.
+  destruct (Z.eqb (idx + n) (ig s)) eqn:E; [reflexivity|].
+  unfold un_count. apply gen_unregister_rest_eq; [apply FN_agrees|exact E].
+Qed.
+Lemma gen_unregister1_eq : forall s idx, gen_unregister1 s idx = unregisterN s idx 1.
+Proof.
+  intros s idx. unfold gen_unregister1. rewrite gen_unregister1_top_eq. unfold model_unregister_top.
+  destruct (Z.eqb (idx + 1) (ig s)) eqn:E; [reflexivity|].
+  unfold u1_count. apply gen_unregister_rest_eq; [apply F1_agrees|exact E].
+Qed.
+
+(* histories run with the functions read from the source *)
+Definition gen_step (sL : st * blocks) (o : op) : st * blocks :=
+  let '(s, L) := sL in
+  match o with
+  | OReg1 => let '(s', r) := gen_register1 s in (s', (r, 1) :: L)
+  | ORegN n => if Z.leb 1 n then let '(s', r) := gen_registerN s n in (s', (r, n) :: L) else sL
+  | OUnreg k => match nth_error L k with
+                | Some (idx, n) => (if Z.eqb n 1 then gen_unregister1 s idx else gen_unregisterN s idx n, remove_nth k L)
+                | None => sL end
+  | ONewRec => (new_recording s, L)
+  end.
+Definition gen_run (ops : list op) : st * blocks := fold_left gen_step ops (init, []).
+
+Lemma gen_step_eq : forall sL o, gen_step sL o = step sL o.
+Proof.
+  intros [s L] o. destruct o as [|n|k|]; cbn [gen_step step].
+  - rewrite gen_register1_eq. reflexivity.
+  - rewrite gen_registerN_eq. reflexivity.
+  - destruct (nth_error L k) as [[idx n]|]; [|reflexivity].
+    destruct (Z.eqb_spec n 1) as [->|_]; [rewrite gen_unregister1_eq|rewrite gen_unregisterN_eq]; reflexivity.
+  - reflexivity.
+Qed.
+Lemma gen_run_eq : forall ops, gen_run ops = run ops.
+Proof.
+  intros ops. unfold gen_run, run. generalize (init, @nil (Z * Z)).
+  induction ops as [|o ops IH]; intros sL; cbn [fold_left]; [reflexivity|].
+  rewrite gen_step_eq. apply IH.
+Qed.
